@@ -57,7 +57,13 @@ def check(chk, repo):
     # afresh, from the first sample of the order, for every query (otherwise a query conquered by idx_nodes[0] - which of
     # the zero-cost prototypes that is depends on storage order - inherits what the previous query left behind)
     from .c03 import check_scan
-    check_scan(chk, rep, repo, "PREDICT:", only={"SCAN-init", "SCAN-label", "SCAN-label-stray", "SCAN-candidate"})
+    # ... and the early exit must compare with the cost of the NEXT SAMPLE OF THE CONQUEST ORDER (a cost read at a storage
+    # position makes the answer depend on how the training set is stored)
+    check_scan(chk, rep, repo, "PREDICT:", only={"SCAN-init", "SCAN-label", "SCAN-label-stray", "SCAN-candidate", "SCAN-exit",
+                                                 "SCAN-bound", "SCAN-bound-present", "SCAN-start", "SCAN-position"})
+    # costs and weights are compared as stored: the data classes must hand back what was stored (transparent properties)
+    from ..common import check_model_premises
+    check_model_premises(rep, repo)
     # every forest is grown through the priority queue: its structural rules are a premise here too
     from ..rules_heap import check_heap
     check_heap(rep, repo, "HEAP-")
